@@ -3,6 +3,7 @@ import LospanVerif.Model.Gateway
 import LospanVerif.Driver.PhyIO
 import LospanVerif.Model.Eui
 import LospanVerif.Model.Router
+import LospanVerif.Model.Text
 /- Driver handlers for the gateway engine (stateful: registry, switch, PULL ports). -/
 namespace LospanVerif
 namespace Driver
@@ -126,6 +127,29 @@ def handleRt (s : Model.Router.St) : List String → Model.Router.St × String
   | ["rt.state"] =>
     (s, s!"routes={natsText (s.routes.map (·.ch))} closed={natsText s.closed.reverse} bad={b01 s.sentOnClosed}")
   | _ => (s, "bad-args")
+
+def optNat : Option Nat → String | some n => toString n | none => "none"
+def optBytes : Option Bytes → String | some b => xh b | none => "none"
+def charsOfHex (h : String) : List Char := ((hx h).getD []).map (fun b => Char.ofNat b.toNat)
+
+/-- Text codec engine. -/
+def handleTxt : List String → String
+  | ["txt.devaddr", n] =>
+    match nat? n with
+    | some v => s!"str={String.ofList (Model.Text.hex8 v)} parse={optNat (Model.Text.parseUint32 (Model.Text.hex8 v))}"
+    | none => "bad-args"
+  | ["txt.parsedevaddr", h] => s!"parse={optNat (Model.Text.parseUint32 (charsOfHex h))}"
+  | ["txt.eui", h] =>
+    match hx h with
+    | some o =>
+      let i := Model.Text.toInt64 o
+      s!"str={String.ofList (Model.Text.euiString o)} parse={optBytes (Model.Text.parseEui (Model.Text.euiString o))} int={i} back={xh (Model.Text.fromInt64 i)}"
+    | none => "bad-args"
+  | ["txt.key", h] =>
+    match hx h with
+    | some k => s!"str={String.ofList (Model.Text.keyString k)} parse={optBytes (Model.Text.parseKey (Model.Text.keyString k))}"
+    | none => "bad-args"
+  | _ => "bad-args"
 
 end Driver
 end LospanVerif
